@@ -32,8 +32,8 @@ import (
 	"github.com/plgd-dev/go-coap/v3/message"
 	"github.com/plgd-dev/go-coap/v3/message/codes"
 	"github.com/plgd-dev/go-coap/v3/message/pool"
-	"github.com/plgd-dev/go-coap/v3/net/blockwise"
 	coapNet "github.com/plgd-dev/go-coap/v3/net"
+	"github.com/plgd-dev/go-coap/v3/net/blockwise"
 	"github.com/plgd-dev/go-coap/v3/net/observation"
 	"github.com/plgd-dev/go-coap/v3/net/responsewriter"
 	"github.com/plgd-dev/go-coap/v3/options/config"
@@ -196,9 +196,13 @@ func (s *c8Session) Close() error {
 	return nil
 }
 func (s *c8Session) MaxMessageSize() uint32 { return 64 * 1024 }
-func (s *c8Session) RemoteAddr() net.Addr   { return &net.UDPAddr{IP: net.IPv4(127, 0, 0, 1), Port: 5683} }
-func (s *c8Session) LocalAddr() net.Addr    { return &net.UDPAddr{IP: net.IPv4(127, 0, 0, 1), Port: 40000} }
-func (s *c8Session) NetConn() net.Conn      { return nil }
+func (s *c8Session) RemoteAddr() net.Addr {
+	return &net.UDPAddr{IP: net.IPv4(127, 0, 0, 1), Port: 5683}
+}
+func (s *c8Session) LocalAddr() net.Addr {
+	return &net.UDPAddr{IP: net.IPv4(127, 0, 0, 1), Port: 40000}
+}
+func (s *c8Session) NetConn() net.Conn { return nil }
 func (s *c8Session) WriteMessage(req *pool.Message) error {
 	data, err := req.MarshalWithEncoder(coder.DefaultCoder)
 	if err != nil {
